@@ -230,6 +230,27 @@ pub fn filler(kind: u8, salt: u64) -> Vec<u8> {
     match kind {
         0 => vec![0u8; FILLER_LEN],
         1 => vec![0xFFu8; FILLER_LEN],
+        3 => {
+            // argument bytes that spell an integer at the edge of an encoding width (the values where
+            // a shortest-form or sign-extension computation changes its answer), behind one byte for
+            // the integer emitter's own choice of opcode (sometimes without it)
+            const EDGES: [i64; 44] = [
+                0, 1, -1, 2, -2, 127, 128, 129, -127, -128, -129, 255, 256, 257, -255, -256, -257, 32767, 32768, 32769, -32767, -32768, -32769, 65535,
+                65536, -65535, -65536, 8388607, 8388608, -8388607, -8388608, -8388609, 16777215, 16777216, -16777216, 2147483647, -2147483648,
+                -2147483647, 2147483646, 4294967295, 4294967296, -4294967296, i64::MAX, i64::MIN,
+            ];
+            let mut r = Rng::new(salt);
+            let w = EDGES[r.below(EDGES.len() as u64) as usize];
+            let mut v = Vec::with_capacity(FILLER_LEN);
+            if r.below(3) != 0 {
+                v.push(r.below(8) as u8);
+            }
+            v.extend_from_slice(&w.to_le_bytes());
+            v.extend_from_slice(&(w as i32).to_le_bytes());
+            let rest = r.bytes(FILLER_LEN.saturating_sub(v.len()));
+            v.extend(rest);
+            v
+        }
         _ => Rng::new(salt).bytes(FILLER_LEN),
     }
 }
